@@ -5,7 +5,9 @@ from props import exprlib as X
 
 PID = "C15"
 RULE = ("eval_expr / safe_eval_expr on random expression trees (depth <=5, all connectives incl. cond and constants) over 1..6 declared "
-        "names (ASCII and unicode), with a stream in which some variable is NOT declared (safe: None; eval: panic); to_expr on EVERY "
+        "names (ASCII and unicode), with a stream in which some variable is NOT declared (safe: None; eval: panic); eval_expression_string on "
+        "printed trees (minimal/redundant parentheses, odd whitespace), with undeclared names and with corrupted text (panic), judged through the "
+        "independent reference parser; to_expr on EVERY "
         "function of <=3 variables, random canonical diagrams over 4..8 variables (skipped levels), non-canonical valid arrays, and name "
         "lists that are too short (index panic); programs to_expr -> eval_expr -> eq and to_expr -> show -> parse -> eval_expr -> eq "
         "through the implementation for parser-safe names; bdd!: every macro rule (6 operators x {plain, parenthesised, with variable set "
@@ -54,6 +56,17 @@ def programs(rng, tier):
         pool = names + [rng.choice(undeclared)]
         e = X.rand_tree(rng, rng.choice([0, 1, 2, 3]), pool, pconst=0.1)
         P.add([rng.choice(["safe_eval_expr", "safe_eval_expr", "eval_expr"]), names_sx(names), e])
+    # ---- eval_expression_string: printed trees (minimal / redundant parentheses, odd whitespace), undeclared names, broken text
+    for _ in range(1200 if tier == "quick" else 20000):
+        nv = rng.choice([1, 2, 3, 3, 4, 5, 6])
+        names = rand_names(rng, nv)
+        k = rng.random()
+        pool = names if k < 0.85 else names + ["zz_undeclared"]
+        e = X.rand_tree(rng, rng.choice([0, 1, 2, 3, 4, 5]), pool, pconst=0.12)
+        s = X.loose_print(rng, e, pextra=rng.choice([0.0, 0.1, 0.3]))
+        if k > 0.93:
+            s = X.mutate(rng, s)
+        P.add(["eval_expr_string", names_sx(names), hexs(s)])
     # ---- export: all functions of <=3 variables (the five node shapes), each also through the round-trip programs
     def family(b, names):
         return [["b", "id", bdd_sx(b)], ["e", "to_expr", "$b", names_sx(names)],
@@ -122,8 +135,23 @@ def judge(st, V):
         return
     machinery_guard(st)
     V.count("outcome:%s:%s" % (op, ("text" if impl.startswith("h:") else impl) if isinstance(impl, str) else impl[0]))
-    if op in ("eval_expr", "safe_eval_expr"):
+    if op in ("eval_expr", "safe_eval_expr", "eval_expr_string"):
         names, e = names_of(call[1]), call[2]
+        if op == "eval_expr_string":
+            # eval_expression_string = try_from(text).unwrap() then eval_expression: the independent reference parser supplies the tree
+            text = unhex(call[2]).decode("utf-8")
+            ref = X.ref_parse(text)
+            if ref == "ERR?":
+                V.skipped += 1
+                return
+            if ref == "ERR":
+                if impl != "PANIC" or model != "PANIC":
+                    V.violations.append(violation(PID, st, "eval_expression_string on a string outside the grammar must panic (unwrap of the parse error)",
+                                                  oracle={"input": text, "reference_parser": "ERR"}, confirmed=(impl != "PANIC"), relation="PANIC"))
+                else:
+                    V.count("eval_string:unparsable")
+                return
+            e = ref[1]
         sample(V, st)
         known = X.expr_vars(e) <= set(names)
         if not semantic_agree(impl, model, aux):
